@@ -126,6 +126,11 @@ class TradeNoUpdate(object):
         if self.how == "lazy":
             # default flags: the tree is only marked stale (what HedgeRisks does with its hedge trades); whoever reads next refreshes it
             target.transact(amount / px, child=self.child)
+        elif self.how == "strategy_transact":
+            # the batch idiom of RollPositionsAfterDates: trade through the strategy with update=False, the closing update comes later
+            target.transact(amount / px, child=self.child, update=False)
+        elif self.how == "allocate_child":
+            target.allocate(amount, child=self.child)
         elif self.how == "transact":
             # a trade booked on the security itself, with the refresh left to whoever drives the tree
             target._create_child_if_needed(self.child)
@@ -133,6 +138,18 @@ class TradeNoUpdate(object):
         else:
             # what the Rebalance algo does for each of its targets (it then refreshes the tree itself, this algo does not)
             target.rebalance(abs(self.frac), self.child, update=False)
+        return True
+
+
+class CloseChild(object):
+    """user-style algo: close one child with default flags"""
+
+    def __init__(self, child):
+        self.child = child
+
+    def __call__(self, target):
+        if self.child in target.children:
+            target.close(self.child)
         return True
 
 
@@ -338,6 +355,8 @@ def mk_algo(bt, a, spec, frames):
         return FeeNoFlow(p["amount"])
     if name == "TradeNoUpdate":
         return TradeNoUpdate(p["child"], p["frac"], p.get("how", "allocate"))
+    if name == "CloseChild":
+        return CloseChild(p["child"])
     if name == "UpdateSelf":
         return UpdateSelf()
     if name == "Const":
